@@ -10,7 +10,7 @@ use serde_json::{json, Value};
 use std::io::{BufRead, BufReader, BufWriter, Write};
 use std::sync::{Arc, Barrier};
 
-fn inspect_to_json(i: &verif::Inspect) -> Value {
+pub fn inspect_to_json(i: &verif::Inspect) -> Value {
     let mut entries = Vec::new();
     let mut parts = Vec::new();
     for p in &i.partitions {
